@@ -112,13 +112,14 @@ class AccfgGen:
                 scope.append(res)
                 return node
             if p["carry"] and r.random() < 0.6:
-                arg = self.fresh("lc")
-                node["carry"].append([arg, r.choice(scope), None])
-                inner = inner + [arg]
+                for _ in range(r.choice([1, 1, 2, 3])):
+                    arg = self.fresh("lc")
+                    node["carry"].append([arg, r.choice(scope), None])
+                    inner = inner + [arg]
             node["body"] = self.stmts(r.randint(1, 3), inner, depth + 1, True)
             for c in node["carry"]:
                 # yield something computed in the body (or the argument itself / an outer value)
-                c[2] = r.choice(inner[-3:] + [c[0]])
+                c[2] = r.choice(inner[-4:] + [c[0]])
                 res = self.fresh("fr")
                 node["res"].append(res)
                 scope.append(res)
